@@ -36,8 +36,9 @@ fn main()
 	let mut sh = Shard{k: 0, shard, n: nshards};
 	let mut rng = Rng::new(seed);
 	let mut emit = |addr: u32, i: &Instruction, out: &mut Out| { if sh.mine() { let c = format!("S {:x} {}", addr, fmt_instr(i)); let r = run_case(&c); out.line(&c, &r); } };
-	let addrs: Vec<u32> = if thorough { vec![0x20000000, 0x20000002, 0, 2, 0x10000100, 0x1FFFFFFE, 0x7FFFFFFC, 0x80000000, 0xFFFFFFF0, 0xFFFFFFFA, 0xFFFFFFFC, 0xFFFFFFFE] }
-		else { vec![0x20000000, 0x20000002, 0, 0xFFFFFFF0, 0xFFFFFFFC] };
+	let addrs: Vec<u32> = if thorough { vec![0x20000000, 0x20000002, 0, 2, 0x10000100, 0x1FFFFFFE, 0x7FFFFFF0, 0x7FFFFFFC, 0x80000000, 0x80000010, 0xFFFFFFF0, 0xFFFFFFFA, 0xFFFFFFFC, 0xFFFFFFFE] }
+		// (the two addresses around 2^31: a PC-relative target on the other side of the sign bit of an i32)
+		else { vec![0x20000000, 0x20000002, 0, 0x7FFFFFF0, 0x80000010, 0xFFFFFFF0, 0xFFFFFFFC] };
 	// audit: Display is total on `Instruction`, but everything below prints only values that come out of the decoder.
 	// Fixed cases for the arms / operand values the decoder never produces (negative and extreme immediates, LDR with
 	// PC base and a register offset, odd and out-of-range PC-relative offsets, register lists with bits 8..15, PC / SP
